@@ -13,6 +13,10 @@ Worlds  : ("g", 2-D) and ("g", 3-D): generic, well conditioned operands from mc.
           ("h", d): the state additionally owns ONE live homogeneous-family operand that is composed, re-parametrised
           through its public API (set_target / from_vector_inplace / compose_*_inplace) and composed again
           (see HELD_SCHEDULES) - the only way to see anything remembered on an object between calls.
+Refused : calls the tree legitimately refuses (operand of the other dimensionality, non-transform operand, in-place
+          operand outside composes_inplace_with) are letters too: they must raise, raise again when retried, leave
+          receiver / argument / bystanders unchanged, and the composes that follow on the same live objects obey
+          the normal oracles (self loops in the ordinary worlds, explored states in the held-operand world).
 Ops     : (method, operand letter, role): method in compose_before / compose_after / _inplace variants;
           role "r": the state is the receiver and the fresh operand the argument, role "a": the fresh
           operand is the receiver and the state the argument (only from level 1 on - at level 0 the roots x
@@ -58,10 +62,58 @@ def int_letter(letter, d):
     return cls(np.array(h, dtype=np.int64))
 
 
+# constructor OPTION letters of the alignment classes (every documented option that changes how the class re-fits:
+# AlignmentSimilarity(rotation=False), AlignmentSimilarity(allow_mirror=True) and AlignmentRotation(allow_mirror=True),
+# the mirror letters fitted to a reflected target so that the option really shows: det < 0; the TPS kernel option is
+# the letter TPS-R2LogRRBF) and ORIENTATION-REVERSING operands (negative uniform scale - reversing in 3-D, a half turn
+# in 2-D -, a reflection as Similarity and as Affine)
+OPTION_LETTERS = ["AlignmentSimilarity-norot", "AlignmentSimilarity-mirror", "AlignmentRotation-mirror"]
+REFLECT_LETTERS = ["UniformScale-neg", "Similarity-refl", "Affine-refl"]
+EXTRA_LETTERS = OPTION_LETTERS + REFLECT_LETTERS
+HOMOG_NATIVE = HOMOG + EXTRA_LETTERS  # fresh letters that may be the receiver of an in-place call
+
+
+def extra_letter(letter, d, var, seed):
+    M = _m()
+    mt, PointCloud = M["mt"], M["PointCloud"]
+    r = L.rs(seed, "c03-extra", letter, d, var)
+    rot = L.rotation_matrix(d, seed, ("c03-extra", letter, var))
+    refl = np.eye(d)
+    refl[0, 0] = -1.0
+    t = 0.5 + r.rand(d)
+    if letter == "UniformScale-neg":
+        return mt.UniformScale(-(0.6 + r.rand()), d)
+    if letter in ("Similarity-refl", "Affine-refl"):
+        h = np.eye(d + 1)
+        h[:d, d] = t
+        if letter == "Similarity-refl":
+            h[:d, :d] = (0.6 + r.rand()) * rot.dot(refl)
+            return mt.Similarity(h)
+        h[:d, :d] = rot.dot(np.diag(0.7 + 0.8 * r.rand(d))).dot(refl) + 0.1 * r.rand(d, d)
+        assert np.linalg.det(h[:d, :d]) < 0
+        return mt.Affine(h)
+    src = PointCloud(L.generic_points(5, d, seed, ("c03-extra-src", letter, var)))
+    a = np.eye(d + 1)
+    lin = rot.dot(np.diag(0.8 + 0.5 * r.rand(d))) + 0.1 * r.rand(d, d)
+    if letter.endswith("-mirror"):
+        lin = lin.dot(refl)
+    tgt = PointCloud(src.points.dot(lin.T) + t + 0.05 * r.randn(5, d))
+    if letter == "AlignmentSimilarity-norot":
+        return mt.AlignmentSimilarity(src, tgt, rotation=False)
+    if letter == "AlignmentSimilarity-mirror":
+        out = mt.AlignmentSimilarity(src, tgt, allow_mirror=True)
+    elif letter == "AlignmentRotation-mirror":
+        out = mt.AlignmentRotation(src, tgt, allow_mirror=True)
+    else:
+        raise ValueError(letter)
+    assert np.linalg.det(out.h_matrix[:d, :d]) < 0, "the mirror letter is not mirrored"
+    return out
+
+
 FULL = {
-    ("g", 2): HOMOG + ["TransformChain", "WithDims", "ThinPlateSplines", "TPS-R2LogRRBF"] + INT_LETTERS,
+    ("g", 2): HOMOG + ["TransformChain", "WithDims", "ThinPlateSplines", "TPS-R2LogRRBF"] + INT_LETTERS + EXTRA_LETTERS,
     ("m", 2): HOMOG + ["TransformChain", "WithDims", "ThinPlateSplines", "PythonPWA", "CachedPWA"],
-    ("g", 3): HOMOG + ["TransformChain", "WithDims"] + INT_LETTERS,
+    ("g", 3): HOMOG + ["TransformChain", "WithDims"] + INT_LETTERS + EXTRA_LETTERS,
 }
 REDUCED = {
     ("g", 2): ["Homogeneous", "Affine", "AlignmentSimilarity", "Rotation", "NonUniformScale", "AlignmentTranslation", "TransformChain", "ThinPlateSplines"],
@@ -86,11 +138,19 @@ SCHEDULES = {
 # results) is only observable through such reuse.
 # op groups: n = non-in-place compose with the held operand, p = in-place compose whose receiver is the partner,
 #            h = in-place compose whose receiver is the held operand, r = set_target / from_vector_inplace
+#            x / X = REFUSED calls (small / full set): the held operand composed with an operand of the other
+#            dimensionality or with something that is no transform; the refusal must leave every object as it was,
+#            be repeatable, and the composes that follow on the same live objects must obey the normal oracles
 HELD_SCHEDULES = {
-    "H": ["nph", "rh", "nph"],
-    "HT": ["nphr", "nphr", "nphr"],
+    "H": ["nph", "rhx", "nph"],
+    "HT": ["nphrX", "nphrX", "nphrX"],
 }
-HELD_VAR, DONOR_VAR = 20, 40
+HELD_VAR, DONOR_VAR, REFUSE_VAR = 20, 40, 50
+# REFUSED-CALL letters of the ordinary worlds (self loops: the state must be exactly what it was): receiver = the
+# state when it is a homogeneous-family transform, argument = an operand of the OTHER dimensionality (every class at
+# level 0, the state's own class and Affine later) or a non-transform (in-place variants only, see assumptions())
+REFUSE_DIM_REDUCED = ("same", "Affine")
+NON_TRANSFORMS = ("ndarray", "None")
 PARTNERS = ("cur", "same", "Affine")
 
 
@@ -341,6 +401,12 @@ def dishonest(t):
     return None
 
 
+def _brief(o):
+    if o is None or isinstance(o, np.ndarray):
+        return "None" if o is None else "ndarray%s" % (o.shape,)
+    return "%s, n_dims %s" % (type(o).__name__, getattr(o, "n_dims", "?"))
+
+
 def _bucket(e):
     if not e > 0:
         return "0"
@@ -383,7 +449,7 @@ class C03(Check):
                     out.append((d, world, letter, sched))
         for sched in self._held_scheds():
             for d in (2, 3):
-                for letter in HOMOG:
+                for letter in HOMOG + OPTION_LETTERS:
                     out.append((d, "h", letter, sched))
         for d in (2, 3):
             for letter in DEC_LETTERS:
@@ -406,6 +472,8 @@ class C03(Check):
                 obj = special(letter, d, self.seed)
             elif letter in INT_LETTERS:
                 obj = int_letter(letter, d)
+            elif letter in EXTRA_LETTERS:
+                obj = extra_letter(letter, d, var, self.seed)
             else:
                 obj = generic(letter, d, var, self.seed)
             blob = self._blobs[key] = pickle.dumps(obj, protocol=pickle.HIGHEST_PROTOCOL)
@@ -478,10 +546,25 @@ class C03(Check):
         letters = {"full": FULL, "reduced": REDUCED}[size][(st["world"], st["d"])]
         cur_inplace = hasattr(st["cur"], "compose_before_inplace")
         out = []
+        rf_dim = ()
+        if st["world"] == "g" and (level == 0 or (st["sched"] == "B" and level == 1)):
+            if cur_inplace:
+                out += [("rf", m, "obj", k) for k in NON_TRANSFORMS for m in ("cbi", "cai")]
+            if isinstance(st["cur"], _m()["mt"].Homogeneous) and st["din"] == st["dout"] == st["d"]:
+                if level == 0:
+                    rf_dim = tuple(HOMOG)
+                else:
+                    own = type(st["cur"]).__name__
+                    rf_dim = tuple(l for l in dict.fromkeys(own if w == "same" else w for w in REFUSE_DIM_REDUCED) if l in HOMOG)
+                    out += [("rf", m, "dim", l) for l in rf_dim for m in METHODS]
+                    rf_dim = ()
         for role in roles:
             for letter in letters:
+                if role == "r" and letter in rf_dim:
+                    # right before the valid composes with this class: the same class in the other dimensionality
+                    out += [("rf", m, "dim", letter) for m in METHODS]
                 odin, odout = dims_of(letter, st["d"])
-                op_inplace = letter in HOMOG or letter == "TransformChain"
+                op_inplace = letter in HOMOG_NATIVE or letter == "TransformChain"
                 for m in METHODS:
                     # which map is applied first: method 'before' => receiver first
                     recv_first = m in ("cb", "cbi")
@@ -497,8 +580,10 @@ class C03(Check):
 
     # ------------------------------------------------------------------ step
     def apply(self, st, op, verify=True):
-        if op[0] in ("hc", "hr"):
+        if op[0] in ("hc", "hr", "hx"):
             return self._apply_held(st, op, verify)
+        if op[0] == "rf":
+            return self._apply_refused(st, op, verify)
         m, letter, role = op
         d, world = st["d"], st["world"]
         operand, ent = self.operand(world, d, letter, st["n"] + 1)
@@ -536,6 +621,10 @@ class C03(Check):
         st["n"] += 1
         if verify:
             self.note("program-length:%d" % st["n"])
+            if letter in EXTRA_LETTERS:
+                self.note("operand:%s" % letter)
+            if m in ("cbi", "cai") and role == "r" and st["n"] == 1 and st["letter"] in EXTRA_LETTERS:
+                self.note("inplace-receiver:%s" % st["letter"])
         mt = _m()["mt"]
         st["honest"] = (dishonest(new_cur) is None) if isinstance(new_cur, mt.Homogeneous) else True
         if verify and not st["honest"]:
@@ -583,8 +672,21 @@ class C03(Check):
             accepted = True
         except ValueError:
             accepted = False
+        retry_accepted = False
+        if not accepted:
+            try:  # a refusal is repeatable
+                getattr(recv, MNAME[m])(arg)
+                retry_accepted = True
+            except ValueError:
+                pass
         if verify:
             self.note("%s:%s" % (m, "accepted" if accepted else "ValueError"))
+            if retry_accepted:
+                fails.append(Failure(where, "refusal-not-repeatable", "%s raised ValueError the first time and was accepted the second time" % pair))
+            if not accepted:
+                df = obs_diff(obs_a, observe(arg))
+                if df:
+                    fails.append(Failure(where, "argument-changed-by-refused-inplace", "%s raised ValueError but changed its argument: %s" % (pair, df)))
             if accepted != expect_accept:
                 fails.append(
                     Failure(where, "inplace-acceptance", "%s %s although isinstance(argument, receiver.composes_inplace_with) is %s" % (pair, "was accepted" if accepted else "raised ValueError", expect_accept))
@@ -606,6 +708,52 @@ class C03(Check):
                     fails.append(Failure(where, "receiver-changed-by-refused-inplace", "%s raised ValueError but changed its receiver: %s" % (pair, df)))
         return fails, accepted, recv, new_model, obs_r, obs_a
 
+    # ------------------------------------------------------------------ refused calls
+    def _non_transform(self, kind, d):
+        return None if kind == "None" else 2.0 * np.eye(d + 1)
+
+    def _refused(self, recv, m, arg, kind, where, pool, verify):
+        """A call the tree refuses: it raises, raises again when retried, and leaves receiver, argument and every
+        other object of the pool observably unchanged.  pool = [(tag, object)]."""
+        pair = "%s.%s(%s)" % (type(recv).__name__, MNAME[m], type(arg).__name__)
+        objs = [("receiver", recv), ("argument", arg)] + [(t, o) for t, o in pool if o is not recv and o is not arg]
+        before = [(t, o, observe(o)) for t, o in objs] if verify else []
+        raised = []
+        for _ in (1, 2):
+            try:
+                getattr(recv, MNAME[m])(arg)
+                raised.append(None)
+            except Exception as e:  # the expectation here IS an exception; which one is recorded below
+                raised.append(type(e).__name__)
+        if not verify:
+            return []
+        fails = []
+        self.note("refused:%s:%s" % (kind, raised[0] or "ACCEPTED"))
+        what = {"dim": "an operand of the other dimensionality", "obj": "an operand that is no transform"}[kind]
+        if raised[0] is None:
+            fails.append(Failure(where, "not-refused", "%s with %s (%s) did not raise" % (pair, what, _brief(arg))))
+        elif raised[1] != raised[0]:
+            fails.append(Failure(where, "refusal-not-repeatable", "%s with %s raised %s, the retry %s" % (pair, what, raised[0], raised[1] or "was accepted")))
+        for t, o, obs in before:
+            df = obs_diff(obs, observe(o))
+            if df:
+                fails.append(Failure(where, "%s-changed-by-refused-call" % t, "%s with %s (raised: %s) changed the %s: %s" % (pair, what, raised, t, df)))
+        return fails
+
+    def _apply_refused(self, st, op, verify):
+        """ordinary worlds: a refused call on the state (self loop)."""
+        _, m, kind, which = op
+        cur = st["cur"]
+        if kind == "dim":
+            arg = self.make("g", 5 - st["d"], which, REFUSE_VAR)
+        else:
+            arg = self._non_transform(which, st["d"])
+        where = "%s(state, %s)" % (MNAME[m], "other-dimensionality" if kind == "dim" else "non-transform")
+        fails = self._refused(cur, m, arg, kind, where, [], verify)
+        if verify and not fails:
+            fails.extend(self._map(cur, st["model"], st["X"], where, type(cur).__name__, "state-changed-by-refused-call"))
+        return fails
+
     # ------------------------------------------------------------------ the held-operand world
     def _held_ops(self, st, level):
         sched = HELD_SCHEDULES[st["sched"]]
@@ -622,6 +770,13 @@ class C03(Check):
             if isinstance(st["held"], _m()["Alignment"]):
                 out += [("hr", "set_target", 1), ("hr", "set_target", 2)]
             out.append(("hr", "from_vector", 1))
+        if "x" in groups or "X" in groups:
+            full = "X" in groups
+            kinds = ["dim:same"] + (["dim:Affine"] if full and st["letter"] != "Affine" else [])
+            for k in kinds:
+                out += [("hx", m, "held", k) for m in METHODS]
+            out += [("hx", m, "held", "obj:" + k) for k in (NON_TRANSFORMS if full else NON_TRANSFORMS[:1]) for m in (("cbi", "cai") if full else ("cbi",))]
+            out += [("hx", m, "dim:same", "held") for m in (METHODS if full else ("cbi",))]
         if "h" in groups:
             for m in ("cbi", "cai"):
                 out += [("hc", m, "held", p) for p in partners]
@@ -677,6 +832,31 @@ class C03(Check):
                 fails.extend(self._map(cur, st["model"], st["X"], where, type(cur).__name__, "earlier-result-changed"))
             return fails
 
+        if op[0] == "hx":
+            _, m, rw, aw = op
+
+            def pick_x(w):
+                if w == "held":
+                    return held
+                kind, which = w.split(":")
+                if kind == "dim":
+                    return self.make("g", 5 - d, letter if which == "same" else which, REFUSE_VAR)
+                return self._non_transform(which, d)
+
+            recv, arg = pick_x(rw), pick_x(aw)
+            kind = (rw if rw != "held" else aw).split(":")[0]
+            where = "%s(%s, %s)" % (MNAME[m], "held-operand" if rw == "held" else "other-dimensionality", "held-operand" if aw == "held" else ("other-dimensionality" if kind == "dim" else "non-transform"))
+            fails = self._refused(recv, m, arg, kind, where, [("held operand", held), ("state", cur)], verify)
+            if verify:
+                self.note("held:refused-call")
+                if not fails:
+                    fails.extend(self._map(held, st["held_model"], st["X"], where, type(held).__name__, "held-operand-changed-by-refused-call"))
+                    fails.extend(self._map(cur, st["model"], st["X"], where, type(cur).__name__, "state-changed-by-refused-call"))
+            # the state "has been through this refusal" is explored further (canon is the history)
+            st["hist"] = st["hist"] + (op,)
+            st["refusals"] = st.get("refusals", 0) + 1
+            return fails
+
         _, m, rw, aw = op
 
         def pick(w):
@@ -698,6 +878,8 @@ class C03(Check):
         fails, accepted, new_obj, new_model, obs_r, obs_a = self._call(st, m, recv, arg, recv_model, arg_model, where, verify, True, False)
         if verify:
             self.note("held:compose-%s%s" % ("inplace" if m in ("cbi", "cai") else "new", "-after-reparametrisation" if st["held_ver"] else ""))
+            if st.get("refusals"):
+                self.note("held:compose-after-refused-call")
             if m in ("cbi", "cai") and aw == "held":
                 df = obs_diff(obs_held, observe(held))
                 if df:
@@ -871,6 +1053,8 @@ class C03(Check):
             "decompose:4-parts-negative-determinant",
             "decompose:1-parts",
         ]
+        need += ["inplace-receiver:%s" % l for l in OPTION_LETTERS] + ["operand:%s" % l for l in EXTRA_LETTERS]
+        need += ["rotation:improper-operand", "refused:dim:ValueError", "refused:obj:ValueError", "held:refused-call", "held:compose-after-refused-call"]
         need += [
             "held:compose-new",
             "held:compose-inplace",
@@ -903,7 +1087,10 @@ class C03(Check):
             "letters_reduced": {"%s%dd" % k: len(v) for k, v in REDUCED.items()},
             "methods": len(METHODS),
             "schedules": {s: SCHEDULES[s] for s in self._scheds()},
-            "held_operand_letters": len(HOMOG),
+            "held_operand_letters": len(HOMOG + OPTION_LETTERS),
+            "option_letters": OPTION_LETTERS,
+            "orientation_reversing_letters": REFLECT_LETTERS,
+            "refused_call_letters": {"other_dimensionality_level0": len(HOMOG), "other_dimensionality_later": list(REFUSE_DIM_REDUCED), "non_transform_inplace": list(NON_TRANSFORMS)},
             "held_operand_schedules": {s: HELD_SCHEDULES[s] for s in self._held_scheds()},
             "held_operand_partners": list(PARTNERS),
             "decompose_letters": len(DEC_LETTERS),
@@ -916,7 +1103,9 @@ class C03(Check):
             "map equality is decided on 8 probe points (a homography is fixed by d+2 points in general position) with tolerance %g x largest intermediate coordinate; probe points closer than %g (relative) to a projective horizon of an intermediate map are dropped" % (TOL, HORIZON),
             "programs whose composition is dimensionally ill-formed (after the 3-D -> 2-D WithDims) are not enabled",
             "class honesty is demanded of the result of a non-in-place call and of the receiver after an ACCEPTED in-place call, whenever both operands are homogeneous and themselves honest (the [interp] of DESIGN.md that excused the in-place variants rested on Translation/Similarity swallowing any Affine in place; that was repaired as D28/D29, every composes_inplace_with is now closed under composition)",
-            "held-operand world: the reused operand is one of the 12 homogeneous-family classes (all its compositions with the state, its own class and Affine are native, so no chain aliases it); its re-parametrisations are set_target (two targets), from_vector_inplace (one donor vector) and compose_*_inplace; the reference reads its h_matrix after each re-parametrisation; programs of 3 calls, the middle one a re-parametrisation in the quick tier",
+            "refused-call letters: an operand of the other dimensionality is enumerated only where both sides are homogeneous-family transforms (native composition) and a non-transform operand only for the in-place variants; LEFT OUT because the unchanged tree does not refuse them (reported, not loosened): compose_before/compose_after with a non-transform (e.g. Affine.compose_before(None) returns TransformChain([affine, None])) and any mixed-dimensionality composition that goes through the TransformChain fallback or has a TransformChain receiver (TransformChain([affine2d]).compose_before[_inplace](Translation3d) is accepted; it only fails when applied)",
+            "option letters: AlignmentSimilarity(rotation=False), AlignmentSimilarity(allow_mirror=True) and AlignmentRotation(allow_mirror=True) (mirror letters fitted to a reflected target, det < 0), TPS kernel R2LogRRBF; copy= / skip_checks= / min_singular_val are not enumerated here (no effect on the map; min_singular_val belongs to C08)",
+            "held-operand world: the reused operand is one of the 12 homogeneous-family classes or an alignment option letter (all its compositions with the state, its own class and Affine are native, so no chain aliases it); its re-parametrisations are set_target (two targets), from_vector_inplace (one donor vector) and compose_*_inplace; the reference reads its h_matrix after each re-parametrisation; programs of 3 calls, the middle one a re-parametrisation in the quick tier",
             "depth bound on the number of compose calls; levels 2 and 3 of the thorough tier use the reduced 8-letter operand alphabet (level 3 with the state as receiver only)",
         ]
 
